@@ -23,7 +23,6 @@ import (
 	"testing"
 	"time"
 
-	"github.com/alicebob/miniredis/v2"
 	"github.com/gotid/god/lib/logx"
 	"github.com/gotid/god/lib/store/redis"
 	"verif.local/vk"
@@ -131,7 +130,8 @@ func c08GenPeriod(r interface {
 }
 
 // runC08Period runs one scenario against the real limiter and the counter model.
-func runC08Period(m *vk.M, idx int, sc c08PScenario, mr *miniredis.Miniredis, store *redis.Redis) {
+func runC08Period(m *vk.M, idx int, sc c08PScenario, srv *c08Srv, store *redis.Redis) {
+	mr := srv.mr
 	desc := func() string { return fmt.Sprintf("case=%d;%s", idx, vk.JSON(sc)) }
 	prefix := fmt.Sprintf("c08p%d:", idx)
 	var opts []PeriodOption
@@ -164,10 +164,20 @@ func runC08Period(m *vk.M, idx int, sc c08PScenario, mr *miniredis.Miniredis, st
 		}
 		mk := &keys[st.Key]
 		before := time.Now()
+		e0 := srv.evals.Load()
 		code, err := pl.Take(fmt.Sprintf("k%d", st.Key))
+		e := srv.evals.Load() - e0
 		after := time.Now()
 		takes++
 		m.Count("period.take", 1)
+		if e != 1 {
+			// the client repeated the script (read timeout on a stalled machine) or
+			// never reached the server: the number of takes the server counted is not
+			// the number of Take calls, nothing to compare
+			m.Count(fmt.Sprintf("period.abandoned-evals=%d", e), 1)
+			m.Note("case %d step %d: Take caused %d EVALs (err=%v); scenario abandoned", idx, si, e, err)
+			return
+		}
 		if err != nil {
 			// an error is not an admission: outside the statement, nothing to compare
 			m.Count("period.take-error(scenario abandoned)", 1)
@@ -241,18 +251,19 @@ func TestVerifC08PeriodSeq(t *testing.T) {
 	defer m.Done()
 	defer c08Wall(m, time.Now())
 	const workers = 4
-	n := vk.N(120, 4000)
+	n := vk.N(120, 2500)
 	var wg sync.WaitGroup
 	var next atomic.Int64
 	for w := 0; w < workers; w++ {
 		wg.Add(1)
 		go func() {
 			defer wg.Done()
-			mr, err := miniredis.Run()
+			srv, err := newC08Srv()
 			if err != nil {
 				m.Inconclusive("miniredis: %v", err)
 				return
 			}
+			mr := srv.mr
 			defer mr.Close()
 			store := redis.New(mr.Addr())
 			for {
@@ -265,7 +276,7 @@ func TestVerifC08PeriodSeq(t *testing.T) {
 				}
 				r := m.Rand("pseq", i)
 				sc := c08GenPeriod(r, 60+r.Intn(vk.N(80, 240)))
-				runC08Period(m, i, sc, mr, store)
+				runC08Period(m, i, sc, srv, store)
 				mr.FlushAll()
 				if i%200 == 0 {
 					m.Progress()
@@ -291,11 +302,12 @@ func TestVerifC08PeriodRace(t *testing.T) {
 	m := vk.New(t, "C08", "period limiter under 32 concurrent callers: exact multiset of codes per key and window; real-time order via sequence stamps; race detector")
 	defer m.Done()
 	defer c08Wall(m, time.Now())
-	mr, err := miniredis.Run()
+	srv, err := newC08Srv()
 	if err != nil {
 		m.Inconclusive("miniredis: %v", err)
 		return
 	}
+	mr := srv.mr
 	defer mr.Close()
 	store := redis.New(mr.Addr())
 	const G = 32
@@ -322,7 +334,18 @@ func TestVerifC08PeriodRace(t *testing.T) {
 				}
 			}
 		}
+		dup := false
 		wave := func(w int) []c08PObs {
+			e0 := srv.evals.Load()
+			defer func() {
+				if e := srv.evals.Load() - e0; e != int64(G*per) {
+					// a script was repeated by the client or never arrived: the server
+					// counted a different number of takes than were issued
+					dup = true
+					m.Count("race.abandoned-evals!=takes", 1)
+					m.Note("case %d wave %d: %d takes caused %d EVALs; round abandoned", i, w, G*per, e)
+				}
+			}()
 			var mu sync.Mutex
 			var all []c08PObs
 			var wg sync.WaitGroup
@@ -428,12 +451,12 @@ func TestVerifC08PeriodRace(t *testing.T) {
 		w1 := wave(0)
 		mr.FastForward(time.Duration(period)*time.Second - time.Millisecond)
 		w2 := wave(1)
-		ok := check("1(w1+w2)", append(append([]c08PObs{}, w1...), w2...))
+		ok := !dup && check("1(w1+w2)", append(append([]c08PObs{}, w1...), w2...))
 		overs := 0
 		if ok {
 			mr.FastForward(time.Millisecond)
 			w3 := wave(2)
-			ok = check("2(w3)", w3)
+			ok = !dup && check("2(w3)", w3)
 			for _, o := range append(w1, append(w2, w3...)...) {
 				if o.code == OverQuota {
 					overs++
